@@ -6,11 +6,18 @@ package main
 // by happens-before (edges: HBRelease/HBAcquire from the shim primitives,
 // `go`, channel operations, Quiesce join).
 
-import "fmt"
+import (
+	"fmt"
+	"path/filepath"
+	"strings"
+
+	"golang.org/x/tools/go/ssa"
+)
 
 type shadow struct {
-	wT, wC int   // last writer thread / clock
-	r      []int // per-thread last read clock
+	wT, wC int   // last plain writer thread / clock
+	r      []int // per-thread last plain read clock
+	aw, ar []int // per-thread last atomic write / read clock
 	wWhere string
 }
 
@@ -18,10 +25,11 @@ type raceState struct {
 	cells map[interface{}]*shadow
 	sync  map[interface{}][]int // release clocks per sync object
 	watch bool
+	kind  map[*ssa.Function]int // 0 unknown, 1 plain (repository code), 2 atomic (sync/atomic model), 3 ignored (harness, other models)
 }
 
 func newRaceState(e *Exec) *raceState {
-	rs := &raceState{cells: map[interface{}]*shadow{}, sync: map[interface{}][]int{}}
+	rs := &raceState{cells: map[interface{}]*shadow{}, sync: map[interface{}][]int{}, kind: map[*ssa.Function]int{}}
 	for _, t := range e.threads {
 		if t.vc == nil {
 			t.vc = make([]int, 32)
@@ -78,30 +86,105 @@ func (rs *raceState) joinAll(e *Exec, me *thread) {
 	}
 }
 
+// fnKind classifies the function an access executes in. Accesses made by the
+// repository's own code are plain; accesses made inside the sync/atomic model
+// are atomic (they never race with each other, but do race with unordered
+// plain accesses to the same word); accesses made by harness code (files
+// zz_*.go) and inside the other environment models (the mutex's own flag, the
+// context model's fields) are not checked - harness receivers declare their
+// state with zzrt.RaceAccess instead.
+func (rs *raceState) fnKind(fn *ssa.Function) int {
+	if fn == nil {
+		return 3
+	}
+	if k, ok := rs.kind[fn]; ok {
+		return k
+	}
+	k := 1
+	root := fn
+	for root.Parent() != nil {
+		root = root.Parent()
+	}
+	pkgPath := ""
+	if root.Pkg != nil {
+		pkgPath = root.Pkg.Pkg.Path()
+	} else if o := root.Origin(); o != nil && o.Pkg != nil {
+		pkgPath = o.Pkg.Pkg.Path()
+	}
+	switch {
+	case strings.HasSuffix(pkgPath, "/zzshim/atomic"):
+		k = 2
+	case strings.Contains(pkgPath, "/zzshim/") || strings.HasSuffix(pkgPath, "/zzrt"):
+		k = 3
+	case !strings.HasPrefix(pkgPath, modPath):
+		k = 3 // standard library / dependencies executed concretely: not the subject
+	default:
+		if pos := root.Pos(); pos.IsValid() {
+			if strings.HasPrefix(filepath.Base(root.Prog.Fset.Position(pos).Filename), "zz_") {
+				k = 3
+			}
+		}
+	}
+	rs.kind[fn] = k
+	return k
+}
+
 func (rs *raceState) access(e *Exec, fr *frame, key interface{}, write bool) {
+	switch rs.fnKind(fr.fn) {
+	case 3:
+		return
+	case 2:
+		rs.accessK(e, fr, key, write, true)
+	default:
+		rs.accessK(e, fr, key, write, false)
+	}
+}
+
+func (rs *raceState) accessK(e *Exec, fr *frame, key interface{}, write, atomic bool) {
 	t := fr.th
 	if t == nil || t.vc == nil {
 		return
 	}
 	s := rs.cells[key]
 	if s == nil {
-		s = &shadow{wT: -1, r: make([]int, 32)}
+		s = &shadow{wT: -1, r: make([]int, 32), aw: make([]int, 32), ar: make([]int, 32)}
 		rs.cells[key] = s
 	}
 	where := ""
 	if fr.fn != nil {
 		where = fr.fn.String()
 	}
+	kindS := map[bool]string{false: "", true: "atomic "}[atomic]
+	// against the last plain write
 	if s.wT >= 0 && s.wT != t.id && s.wC > t.vc[s.wT] {
-		e.raceFound(fr, fmt.Sprintf("write by g%d in %s not ordered before access by g%d in %s", s.wT, s.wWhere, t.id, where))
+		e.raceFound(fr, fmt.Sprintf("plain write by g%d in %s not ordered before %saccess by g%d in %s", s.wT, s.wWhere, kindS, t.id, where))
+	}
+	if !atomic {
+		// a plain access also conflicts with unordered atomic writes
+		for i, c := range s.aw {
+			if i != t.id && c > t.vc[i] {
+				e.raceFound(fr, fmt.Sprintf("atomic write by g%d not ordered before plain access by g%d in %s", i, t.id, where))
+			}
+		}
 	}
 	if write {
 		for i, rc := range s.r {
 			if i != t.id && rc > t.vc[i] {
-				e.raceFound(fr, fmt.Sprintf("read by g%d not ordered before write by g%d in %s", i, t.id, where))
+				e.raceFound(fr, fmt.Sprintf("plain read by g%d not ordered before %swrite by g%d in %s", i, kindS, t.id, where))
 			}
 		}
-		s.wT, s.wC, s.wWhere = t.id, t.vc[t.id], where
+		if !atomic {
+			for i, rc := range s.ar {
+				if i != t.id && rc > t.vc[i] {
+					e.raceFound(fr, fmt.Sprintf("atomic read by g%d not ordered before plain write by g%d in %s", i, t.id, where))
+				}
+			}
+			s.wT, s.wC, s.wWhere = t.id, t.vc[t.id], where
+		} else {
+			s.aw[t.id] = t.vc[t.id]
+		}
+	} else if atomic {
+		s.ar[t.id] = t.vc[t.id]
 	} else {
 		s.r[t.id] = t.vc[t.id]
 	}
